@@ -19,29 +19,70 @@ Import ListNotations.
 Local Open Scope N_scope.
 
 (* ---------------------------------------------------------------- IPAllocator *)
-Record bjson := { jb_geo : geo; jb_bitmap : N; jb_alloc : amap N }.
+(* base_network is the text "ip/len": it carries base address, pool length AND the address family
+   (v4 text vs v6 text); NewIPAllocator re-derives isIPv6 and the total bit width from it, and
+   UnmarshalJSON copies isIPv6 back into the receiver.  The family is therefore a field of the
+   marshalled record. *)
+Record bjson := { jb_base : N; jb_ppl : N; jb_pl : N; jb_v6 : bool; jb_bitmap : N; jb_alloc : amap N }.
 
-Definition b_marshal (s : bstate) : bjson := {| jb_geo := b_g s; jb_bitmap := b_bm s; jb_alloc := b_alloc s |}.
+Definition b_isv6 (s : bstate) : bool := g_bits (b_g s) =? 128.           (* isIPv6 *)
+Definition b_maskbits (s : bstate) : N := if b_isv6 s then 128 else 32.     (* bits in getPrefixByIndex *)
+
+Definition b_marshal (s : bstate) : bjson :=
+  {| jb_base := g_base (b_g s); jb_ppl := g_ppl (b_g s); jb_pl := g_pl (b_g s); jb_v6 := b_isv6 s;
+     jb_bitmap := b_bm s; jb_alloc := b_alloc s |}.
 
 (* for subID, idx := range state.Allocated { indexToSubscriber[idx] = subID } *)
 Fixpoint rebuild_rev (m : amap N) : amap N :=
   match m with [] => [] | (h, i) :: tl => aset i h (rebuild_rev tl) end.
 
 Definition b_unmarshal (j : bjson) : bstate :=
-  {| b_g := jb_geo j; b_bm := jb_bitmap j; b_alloc := jb_alloc j; b_rev := rebuild_rev (jb_alloc j);
+  {| b_g := {| g_bits := if jb_v6 j then 128 else 32; g_base := jb_base j; g_ppl := jb_ppl j; g_pl := jb_pl j |};
+     b_bm := jb_bitmap j; b_alloc := jb_alloc j; b_rev := rebuild_rev (jb_alloc j);
      b_count := Z.of_N (asize (jb_alloc j)); b_hint := 0 |}.
 
-Inductive bq := QLookup (h : N) | QLookupUnit (a pl : N) | QIsAlloc (a pl : N) | QStats.
+(* what net.ParseCIDR can produce: 32-bit or 128-bit addresses *)
+Definition fam_ok (g : geo) : Prop := g_bits g = 32 \/ g_bits g = 128.
 
-Definition b_query (s : bstate) (q : bq) : out :=
+(* queries, with their FULL results: a prefix is (address, mask ones, mask bits) *)
+Inductive bq := QLookup (h : N) | QLookupUnit (a pl : N) | QIsAlloc (a pl : N) | QStats
+              | QIsV6 | QPrefixLen | QList.
+Inductive bans := BOut (o : out) | BPfx (u pl bits : N) | BFlag (b : bool) | BNum (n : N)
+                | BList (l : list (N * (N * N * N))).
+
+Definition b_query (s : bstate) (q : bq) : bans :=
   match q with
-  | QLookup h => bout s (Lookup h)
-  | QLookupUnit a pl => bout s (LookupUnit a pl)
+  | QLookup h => match aget h (b_alloc s) with
+                 | Some i => BPfx (unit_of s i) (g_pl (b_g s)) (b_maskbits s)
+                 | None => BOut ONone
+                 end
+  | QLookupUnit a pl => BOut (bout s (LookupUnit a pl))
   | QIsAlloc a pl => match index_of s a pl with
-                     | Some i => if N.testbit (b_bm s) i then OOk else ONone
-                     | None => ONone
+                     | Some i => BFlag (N.testbit (b_bm s) i)
+                     | None => BFlag false
                      end
-  | QStats => bout s Stats
+  | QStats => BOut (bout s Stats)
+  | QIsV6 => BFlag (b_isv6 s)
+  | QPrefixLen => BNum (g_pl (b_g s))
+  | QList => BList (fold_right ins_rec []
+                      (map (fun p => (fst p, (unit_of s (snd p), g_pl (b_g s), b_maskbits s))) (b_alloc s)))
+  end.
+
+Definition bans_eqb (a b : bans) : bool :=
+  match a, b with
+  | BOut x, BOut y => out_eqb x y
+  | BPfx u p b1, BPfx v q b2 => (u =? v) && (p =? q) && (b1 =? b2)
+  | BFlag x, BFlag y => Bool.eqb x y
+  | BNum x, BNum y => x =? y
+  | BList x, BList y =>
+      (fix eq (a b : list (N * (N * N * N))) : bool :=
+         match a, b with
+         | [], [] => true
+         | (h, (x1, y1, z1)) :: a', (h', (x2, y2, z2)) :: b' =>
+             (h =? h') && (x1 =? x2) && (y1 =? y2) && (z1 =? z2) && eq a' b'
+         | _, _ => false
+         end) x y
+  | _, _ => false
   end.
 
 (* ---------------------------------------------------------------- EpochBitmapAllocator *)
